@@ -723,3 +723,40 @@ Definition mute_detected (arm_header fresh : bool) : bool :=
   | Some _ => true
   | None => false
   end.
+
+(* ---- network/local.go: the listening table of the in-memory transport -------------------------------------
+
+   LocalManager.listening maps an ADDRESS to the accept function of whoever listens there; it does not
+   know which listener object registered the entry. LocalListener.Stop releases the address only while
+   this object is the one that listens ([unset_first = false], the tree). The variant that releases it
+   before looking at its own flag ([unset_first = true], seeded change C09-G) lets a second Stop of an
+   old, already stopped listener delete the registration of its restarted successor. *)
+
+Record llistener := mkLL { ll_addr : nat; ll_id : nat; ll_on : bool }.
+
+Definition ltable := nat -> option nat.     (* address -> listener object whose accept function is registered *)
+
+Definition ll_listen (tb : ltable) (l : llistener) : ltable * llistener :=
+  (upd tb (ll_addr l) (Some (ll_id l)), mkLL (ll_addr l) (ll_id l) true).
+
+Definition ll_stop (unset_first : bool) (tb : ltable) (l : llistener) : ltable * llistener :=
+  if unset_first then (upd tb (ll_addr l) None, mkLL (ll_addr l) (ll_id l) false)
+  else if ll_on l then (upd tb (ll_addr l) None, mkLL (ll_addr l) (ll_id l) false)
+  else (tb, l).
+
+(* a peer is stopped, restarted on the same address, and its OLD incarnation is stopped once more
+   (Server.Close does that unconditionally): who is registered at the address afterwards *)
+Definition restart_then_stop_old (unset_first : bool) (addr : nat) : option nat :=
+  let old := mkLL addr 1 false in
+  let (t1, old1) := ll_listen (fun _ => None) old in
+  let (t2, old2) := ll_stop unset_first t1 old1 in
+  let (t3, new1) := ll_listen t2 (mkLL addr 2 false) in
+  let (t4, _) := ll_stop unset_first t3 old2 in
+  t4 addr.
+
+(* ---- network/tcp.go TCPConn.Send: the send mutex ------------------------------------------------------------
+   Send holds sendMutex around the write and releases it on every path ([leaks = false], the tree); the
+   variant that unlocks only on the success path ([leaks = true], seeded change C09-H) keeps it after a
+   failed write. Programs for the mutex machine above. *)
+Definition conn_send_prog (write_ok leaks : bool) : lockprog :=
+  if write_ok || negb leaks then locked_section [IWork] else [ILock; IWork].
